@@ -15,6 +15,7 @@ import (
 
 func init() {
 	register(&PropertyCheck{ID: "C01", Level: "other", Run: checkC01, Canaries: []Canary{
+		{Name: "rf8-single-byte-types-delegate-to-bits", Silent: true, Edits: []Edit{{"wiretypes.go", "\tif len(data) >= i+1 {\n\t\tif v {\n\t\t\tdata[i] = 0x01\n\t\t} else {\n\t\t\tdata[i] = 0x00\n\t\t}\n\t}\n\treturn 1\n}\nfunc (v *wbool) UnmarshalBinary(data []byte) error {\n\tif len(data) < 1 {\n\t\treturn ErrMissingData\n\t}\n\tswitch data[0] {\n\tcase 0:\n\t\t*v = wbool(false)\n\tcase 1:\n\t\t*v = wbool(true)\n\tdefault:\n\t\treturn fmt.Errorf(\"malformed bool\")\n\t}\n\treturn nil\n}\nfunc (v wbool) width() int { return 1 }\n\n// https://docs.oasis-open.org/mqtt/mqtt/v5.0/os/mqtt-v5.0-os.html#_Toc3901007\ntype bits byte\n\nfunc (v bits) Has(b byte) bool { return byte(v)&b == b }\n\nfunc (v bits) fillProp(data []byte, i int, id Ident) int {\n\tif v == 0 {\n\t\treturn 0\n\t}\n\tn := i\n\ti += id.fill(data, i)\n\ti += v.fill(data, i)\n\treturn i - n\n}\n\nfunc (v bits) fill(data []byte, i int) int {\n\tif len(data) >= i+1 {\n\t\tdata[i] = byte(v)\n\t}\n\treturn 1\n}\n\n// fillOpt fills the bits if > 0\nfunc (v bits) fillOpt(data []byte, i int) int {\n\tif v == 0 {\n\t\treturn 0\n\t}\n\treturn v.fill(data, i)\n}\n\nfunc (v *bits) ReadFrom(r io.Reader) (int64, error) {\n\tdata := make([]byte, 1)\n\tif n, err := io.ReadFull(r, data); err != nil {\n\t\treturn int64(n), err\n\t}\n\treturn 1, v.UnmarshalBinary(data)\n}\nfunc (v *bits) UnmarshalBinary(data []byte) error {\n\tif len(data) < 1 {\n\t\treturn ErrMissingData\n\t}\n\t*v = bits(data[0])\n\treturn nil\n}\nfunc (v bits) width() int { return 1 }\nfunc (v *bits) toggle(flag byte, on bool) {\n\tif on {\n\t\t*v = *v | bits(flag)\n\t\treturn\n\t}\n\t*v = *v & bits(^flag)\n}\n\n// https://docs.oasis-open.org/mqtt/mqtt/v5.0/os/mqtt-v5.0-os.html#_Toc3901008\ntype wuint16 uint16\n\nfunc (v wuint16) fillProp(data []byte, i int, id Ident) int {\n\tif v == 0 {\n\t\treturn 0\n\t}\n\tn := i\n\ti += id.fill(data, i)\n\ti += v.fill(data, i)\n\treturn i - n\n}\n\nfunc (v wuint16) fill(data []byte, i int) int {\n\tif len(data) >= i+2 {\n\t\tbinary.BigEndian.PutUint16(data[i:], uint16(v))\n\t}\n\treturn 2\n}\n\nfunc (v *wuint16) UnmarshalBinary(data []byte) error {\n\tif len(data) < 2 {\n\t\treturn ErrMissingData\n\t}\n\t*v = wuint16(binary.BigEndian.Uint16(data))\n\treturn nil\n}\n\nfunc (v wuint16) width() int { return 2 }\n\n// https://docs.oasis-open.org/mqtt/mqtt/v5.0/os/mqtt-v5.0-os.html#_Toc3901009\ntype wuint32 uint32\n\nfunc (v wuint32) fillProp(data []byte, i int, id Ident) int {\n\tif v == 0 {\n\t\treturn 0\n\t}\n\tn := i\n\ti += id.fill(data, i)\n\ti += v.fill(data, i)\n\treturn i - n\n}\n\nfunc (v wuint32) fill(data []byte, i int) int {\n\tif len(data) >= i+v.width() {\n\t\tbinary.BigEndian.PutUint32(data[i:], uint32(v))\n\t}\n\treturn v.width()\n}\n\nfunc (v *wuint32) UnmarshalBinary(data []byte) error {\n\tif len(data) < 4 {\n\t\treturn ErrMissingData\n\t}\n\t*v = wuint32(binary.BigEndian.Uint32(data))\n\treturn nil\n}\n\nfunc (v wuint32) width() int { return 4 }\n\n// only here to fulfill interface\nfunc (v Ident) fillProp(data []byte, i int, id Ident) int { return 0 }\n\nfunc (v Ident) fill(data []byte, i int) int {\n\tif len(data) >= i+1 {\n\t\tdata[i] = byte(v)\n\t}\n\treturn 1\n}\n\nfunc (v *Ident) UnmarshalBinary(data []byte) error {\n\tif len(data) < 1 {\n\t\treturn ErrMissingData\n\t}\n\t*v = Ident(data[0])\n\treturn nil", "\treturn v.wire().fill(data, i)\n}\n\n// wire returns the byte sent for v, 0x01 for true and 0x00 for false.\nfunc (v wbool) wire() bits {\n\tif v {\n\t\treturn 0x01\n\t}\n\treturn 0x00\n}\nfunc (v *wbool) UnmarshalBinary(data []byte) error {\n\tvar b bits\n\tif err := b.UnmarshalBinary(data); err != nil {\n\t\treturn err\n\t}\n\tswitch b {\n\tcase 0x00:\n\t\t*v = false\n\tcase 0x01:\n\t\t*v = true\n\tdefault:\n\t\treturn fmt.Errorf(\"malformed bool\")\n\t}\n\treturn nil\n}\nfunc (v wbool) width() int { return 1 }\n\n// https://docs.oasis-open.org/mqtt/mqtt/v5.0/os/mqtt-v5.0-os.html#_Toc3901007\ntype bits byte\n\nfunc (v bits) Has(b byte) bool { return byte(v)&b == b }\n\nfunc (v bits) fillProp(data []byte, i int, id Ident) int {\n\tif v == 0 {\n\t\treturn 0\n\t}\n\tn := i\n\ti += id.fill(data, i)\n\ti += v.fill(data, i)\n\treturn i - n\n}\n\nfunc (v bits) fill(data []byte, i int) int {\n\tif len(data) >= i+1 {\n\t\tdata[i] = byte(v)\n\t}\n\treturn 1\n}\n\n// fillOpt fills the bits if > 0\nfunc (v bits) fillOpt(data []byte, i int) int {\n\tif v == 0 {\n\t\treturn 0\n\t}\n\treturn v.fill(data, i)\n}\n\nfunc (v *bits) ReadFrom(r io.Reader) (int64, error) {\n\tdata := make([]byte, 1)\n\tif n, err := io.ReadFull(r, data); err != nil {\n\t\treturn int64(n), err\n\t}\n\treturn 1, v.UnmarshalBinary(data)\n}\nfunc (v *bits) UnmarshalBinary(data []byte) error {\n\tif len(data) < 1 {\n\t\treturn ErrMissingData\n\t}\n\t*v = bits(data[0])\n\treturn nil\n}\nfunc (v bits) width() int { return 1 }\nfunc (v *bits) toggle(flag byte, on bool) {\n\tmask := bits(flag)\n\tx := *v &^ mask // flag cleared\n\tif on {\n\t\tx |= mask\n\t}\n\t*v = x\n}\n\n// https://docs.oasis-open.org/mqtt/mqtt/v5.0/os/mqtt-v5.0-os.html#_Toc3901008\ntype wuint16 uint16\n\nfunc (v wuint16) fillProp(data []byte, i int, id Ident) int {\n\tif v == 0 {\n\t\treturn 0\n\t}\n\tn := i\n\ti += id.fill(data, i)\n\ti += v.fill(data, i)\n\treturn i - n\n}\n\nfunc (v wuint16) fill(data []byte, i int) int {\n\tif len(data) >= i+2 {\n\t\tbinary.BigEndian.PutUint16(data[i:], uint16(v))\n\t}\n\treturn 2\n}\n\nfunc (v *wuint16) UnmarshalBinary(data []byte) error {\n\tif len(data) < 2 {\n\t\treturn ErrMissingData\n\t}\n\t*v = wuint16(binary.BigEndian.Uint16(data))\n\treturn nil\n}\n\nfunc (v wuint16) width() int { return 2 }\n\n// https://docs.oasis-open.org/mqtt/mqtt/v5.0/os/mqtt-v5.0-os.html#_Toc3901009\ntype wuint32 uint32\n\nfunc (v wuint32) fillProp(data []byte, i int, id Ident) int {\n\tif v == 0 {\n\t\treturn 0\n\t}\n\tn := i\n\ti += id.fill(data, i)\n\ti += v.fill(data, i)\n\treturn i - n\n}\n\nfunc (v wuint32) fill(data []byte, i int) int {\n\tif len(data) >= i+v.width() {\n\t\tbinary.BigEndian.PutUint32(data[i:], uint32(v))\n\t}\n\treturn v.width()\n}\n\nfunc (v *wuint32) UnmarshalBinary(data []byte) error {\n\tif len(data) < 4 {\n\t\treturn ErrMissingData\n\t}\n\t*v = wuint32(binary.BigEndian.Uint32(data))\n\treturn nil\n}\n\nfunc (v wuint32) width() int { return 4 }\n\n// only here to fulfill interface\nfunc (v Ident) fillProp(data []byte, i int, id Ident) int { return 0 }\n\n// An Ident is a single byte on the wire, same as bits.\nfunc (v Ident) fill(data []byte, i int) int {\n\treturn bits(v).fill(data, i)\n}\n\nfunc (v *Ident) UnmarshalBinary(data []byte) error {\n\treturn (*bits)(v).UnmarshalBinary(data)"}}},
 		{Name: "adv5-A2-fillprop-with-an-encoding-of-its-own", Rule: "R1.4", Where: "bindata#fillProp", Edits: []Edit{{"wiretypes.go", "\tif len(v) == 0 {\n\t\treturn 0\n\t}\n\tn := i\n\ti += id.fill(data, i)\n\ti += v.fill(data, i)\n\treturn i - n", "\tif len(v) == 0 {\n\t\treturn 0\n\t}\n\treturn v.fillTagged(data, i, id)\n}\n\n// fillTagged writes the identifier, the two byte length and the value\n// in one go.\nfunc (v bindata) fillTagged(data []byte, i int, id Ident) int {\n\tn := 1 + v.width()\n\tif len(data) >= i+n {\n\t\tdata[i] = byte(id)\n\t\tdata[i+1] = byte(len(v)) >> 8\n\t\tdata[i+2] = byte(len(v))\n\t\tcopy(data[i+3:], v)\n\t}\n\treturn n"}}},
 		{Name: "rf7-u16-decoded-little-endian-by-shifts", Rule: "R1.4", Where: "wuint16", Edits: []Edit{{"wiretypes.go", "\t\"encoding/binary\"\n\t\"fmt\"\n\t\"io\"\n\t\"strings\"\n)\n\n// wireType defines the interface for types that can be send over the\n// wire\ntype wireType interface {\n\tencoding.BinaryUnmarshaler\n\n\t// fill unmarshals the data type into buf at position i. The\n\t// returned value is the width of the data marshaled.  fill should\n\t// work with a nil buf as a noop but return the width.  This\n\t// enables efficient calculation of partial lengths without\n\t// actually allocating a buf.\n\tfill(buf []byte, i int) int\n\n\t// fillProp fills the identified UserProp if not empty as this is\n\t// the case for most UserProp values.\n\tfillProp(buf []byte, i int, id Ident) int\n\n\t// returns the width of the wire data in bytes\n\twidth() int\n}\n\n// firstByte represents the first byte in a control packet.\ntype firstByte byte\n\n// String returns a readable string TYPEFLAGS, e.g. PUBLISH d1-r\nfunc (f firstByte) String() string {\n\tvar sb strings.Builder\n\tsb.WriteString(typeNames[byte(f)&0b1111_0000])\n\tsb.WriteString(\" \")\n\tflags := []byte(\"----\")\n\tif bits(f).Has(DUP) {\n\t\tflags[0] = 'd'\n\t}\n\tswitch {\n\tcase bits(f).Has(QoS3):\n\t\tflags[1] = '!' // malformed\n\t\tflags[2] = '!' // malformed\n\tcase bits(f).Has(QoS1):\n\t\tflags[2] = '1'\n\tcase bits(f).Has(QoS2):\n\t\tflags[1] = '2'\n\t}\n\tif bits(f).Has(RETAIN) {\n\t\tflags[3] = 'r'\n\t}\n\tsb.Write(flags)\n\treturn sb.String()\n}\n\n// https://docs.oasis-open.org/mqtt/mqtt/v5.0/os/mqtt-v5.0-os.html#_Toc3901013\ntype UserProp [2]string\n\nfunc (v UserProp) fillProp(data []byte, i int, id Ident) int {\n\tif len(v[0]) == 0 {\n\t\treturn 0\n\t}\n\tn := i\n\ti += id.fill(data, i)\n\ti += v.fill(data, i)\n\treturn i - n\n}\nfunc (v UserProp) fill(data []byte, i int) int {\n\ti += wstring(v[0]).fill(data, i)\n\t_ = wstring(v[1]).fill(data, i)\n\treturn v.width()\n}\n\nfunc (v *UserProp) UnmarshalBinary(data []byte) error {\n\tvar key wstring\n\tif err := key.UnmarshalBinary(data); err != nil {\n\t\treturn unmarshalErr(v, \"key\", err.(*Malformed))\n\t}\n\tv[0] = string(key)\n\n\ti := len(v[0]) + 2\n\tvar val wstring\n\tif err := val.UnmarshalBinary(data[i:]); err != nil {\n\t\treturn unmarshalErr(v, \"value\", err.(*Malformed))\n\t}\n\tv[1] = string(val)\n\treturn nil\n}\nfunc (v UserProp) String() string {\n\treturn fmt.Sprintf(\"%s:%s\", v[0], v[1])\n}\nfunc (v UserProp) width() int {\n\treturn wstring(v[0]).width() + wstring(v[1]).width()\n}\n\n// https://docs.oasis-open.org/mqtt/mqtt/v5.0/os/mqtt-v5.0-os.html#_Toc3901010\ntype wstring = bindata\n\n// https://docs.oasis-open.org/mqtt/mqtt/v5.0/os/mqtt-v5.0-os.html#_Toc3901012\ntype bindata []byte\n\nfunc (v bindata) fillProp(data []byte, i int, id Ident) int {\n\tif len(v) == 0 {\n\t\treturn 0\n\t}\n\tn := i\n\ti += id.fill(data, i)\n\ti += v.fill(data, i)\n\treturn i - n\n}\nfunc (v bindata) fill(data []byte, i int) int {\n\tif len(data) >= i+v.width() {\n\t\ti += wuint16(len(v)).fill(data, i)\n\t\tcopy(data[i:], []byte(v))\n\t}\n\treturn v.width()\n}\n\nfunc (v *bindata) UnmarshalBinary(data []byte) error {\n\tif len(data) < 2 {\n\t\treturn unmarshalErr(v, \"\", \"missing data\")\n\t}\n\tlength := int(binary.BigEndian.Uint16(data))\n\tif len(data) < length+2 {\n\t\treturn unmarshalErr(v, \"\", \"missing data\")\n\t}\n\tif length == 0 {\n\t\treturn nil\n\t}\n\t*v = make([]byte, length)\n\tcopy(*v, data[2:length+2])\n\treturn nil\n}\n\nfunc (v bindata) width() int {\n\treturn 2 + len(v)\n}\n\ntype rawdata []byte\n\nfunc (v *rawdata) UnmarshalBinary(data []byte) error {\n\t*v = make([]byte, len(data))\n\tcopy(*v, data)\n\treturn nil\n}\nfunc (v rawdata) fill(data []byte, i int) int {\n\tif len(data) >= i+v.width() {\n\t\treturn copy(data[i:], []byte(v))\n\t}\n\treturn v.width()\n}\nfunc (v rawdata) width() int {\n\treturn len(v)\n}\n\n// fillProp is here to fullfill the wireType interface, though it\n// cannot be used as a property as the length is not written. fillProp\n// always panics.\nfunc (v rawdata) fillProp(data []byte, i int, id Ident) int {\n\tpanic(\"cannot use rawdata as property\")\n}\n\n// https://docs.oasis-open.org/mqtt/mqtt/v5.0/os/mqtt-v5.0-os.html#_Toc3901011\ntype vbint uint\n\nfunc (v vbint) fillProp(data []byte, i int, id Ident) int {\n\tif v == 0 {\n\t\treturn 0\n\t}\n\tn := i\n\ti += id.fill(data, i)\n\ti += v.fill(data, i)\n\treturn i - n\n}\n\nfunc (v vbint) fill(data []byte, i int) int {\n\tx := v\n\tn := i\n\tfor {\n\t\tencodedByte := byte(x % 128)\n\t\tx = x / 128\n\t\tif x > 0 {\n\t\t\tencodedByte = encodedByte | 128\n\t\t}\n\t\tif i < len(data) {\n\t\t\tdata[i] = encodedByte\n\t\t}\n\t\ti++\n\t\tif x == 0 {\n\t\t\tbreak\n\t\t}\n\t}\n\treturn i - n\n}\n\nfunc (v vbint) width() int {\n\treturn v.fill(_LEN, 0)\n}\n\nfunc (v *vbint) ReadFrom(r io.Reader) (int64, error) {\n\tvar multiplier uint = 1\n\tvar value uint\n\tdata := make([]byte, 1)\n\tvar i int64\n\tfor {\n\t\tif _, err := io.ReadFull(r, data); err != nil {\n\t\t\treturn i, err\n\t\t}\n\t\ti++\n\t\tencodedByte := data[0]\n\t\tvalue += uint(encodedByte) & uint(127) * multiplier\n\t\tif multiplier > 128*128*128 {\n\t\t\treturn i, unmarshalErr(v, \"\", \"size exceeded\")\n\t\t}\n\t\tif encodedByte&128 == 0 {\n\t\t\tbreak\n\t\t}\n\t\tmultiplier = multiplier * 128\n\t}\n\t*v = vbint(value)\n\treturn i, nil\n}\n\n// UnmarshalBinary data, returns nil or *Malformed error\nfunc (v *vbint) UnmarshalBinary(data []byte) error {\n\tif len(data) == 0 {\n\t\treturn unmarshalErr(v, \"\", \"missing data\")\n\t}\n\tvar multiplier uint = 1\n\tvar value uint\n\tfor _, encodedByte := range data {\n\t\tvalue += uint(encodedByte) & uint(127) * multiplier\n\t\tif multiplier > 128*128*128 {\n\t\t\treturn unmarshalErr(v, \"\", \"size exceeded\")\n\t\t}\n\t\tif encodedByte&128 == 0 {\n\t\t\t*v = vbint(value)\n\t\t\treturn nil\n\t\t}\n\t\tmultiplier = multiplier * 128\n\t}\n\treturn unmarshalErr(v, \"\", \"missing data\")\n}\n\n// wire types\ntype (\n\twuint8 = bits // byte\n)\n\ntype wbool bool\n\nfunc (v wbool) fillProp(data []byte, i int, id Ident) int {\n\tif !v {\n\t\treturn 0\n\t}\n\tn := i\n\ti += id.fill(data, i)\n\ti += v.fill(data, i)\n\treturn i - n\n}\nfunc (v wbool) fill(data []byte, i int) int {\n\tif len(data) >= i+1 {\n\t\tif v {\n\t\t\tdata[i] = 0x01\n\t\t} else {\n\t\t\tdata[i] = 0x00\n\t\t}\n\t}\n\treturn 1\n}\nfunc (v *wbool) UnmarshalBinary(data []byte) error {\n\tif len(data) < 1 {\n\t\treturn ErrMissingData\n\t}\n\tswitch data[0] {\n\tcase 0:\n\t\t*v = wbool(false)\n\tcase 1:\n\t\t*v = wbool(true)\n\tdefault:\n\t\treturn fmt.Errorf(\"malformed bool\")\n\t}\n\treturn nil\n}\nfunc (v wbool) width() int { return 1 }\n\n// https://docs.oasis-open.org/mqtt/mqtt/v5.0/os/mqtt-v5.0-os.html#_Toc3901007\ntype bits byte\n\nfunc (v bits) Has(b byte) bool { return byte(v)&b == b }\n\nfunc (v bits) fillProp(data []byte, i int, id Ident) int {\n\tif v == 0 {\n\t\treturn 0\n\t}\n\tn := i\n\ti += id.fill(data, i)\n\ti += v.fill(data, i)\n\treturn i - n\n}\n\nfunc (v bits) fill(data []byte, i int) int {\n\tif len(data) >= i+1 {\n\t\tdata[i] = byte(v)\n\t}\n\treturn 1\n}\n\n// fillOpt fills the bits if > 0\nfunc (v bits) fillOpt(data []byte, i int) int {\n\tif v == 0 {\n\t\treturn 0\n\t}\n\treturn v.fill(data, i)\n}\n\nfunc (v *bits) ReadFrom(r io.Reader) (int64, error) {\n\tdata := make([]byte, 1)\n\tif n, err := io.ReadFull(r, data); err != nil {\n\t\treturn int64(n), err\n\t}\n\treturn 1, v.UnmarshalBinary(data)\n}\nfunc (v *bits) UnmarshalBinary(data []byte) error {\n\tif len(data) < 1 {\n\t\treturn ErrMissingData\n\t}\n\t*v = bits(data[0])\n\treturn nil\n}\nfunc (v bits) width() int { return 1 }\nfunc (v *bits) toggle(flag byte, on bool) {\n\tif on {\n\t\t*v = *v | bits(flag)\n\t\treturn\n\t}\n\t*v = *v & bits(^flag)\n}\n\n// https://docs.oasis-open.org/mqtt/mqtt/v5.0/os/mqtt-v5.0-os.html#_Toc3901008\ntype wuint16 uint16\n\nfunc (v wuint16) fillProp(data []byte, i int, id Ident) int {\n\tif v == 0 {\n\t\treturn 0\n\t}\n\tn := i\n\ti += id.fill(data, i)\n\ti += v.fill(data, i)\n\treturn i - n\n}\n\nfunc (v wuint16) fill(data []byte, i int) int {\n\tif len(data) >= i+2 {\n\t\tbinary.BigEndian.PutUint16(data[i:], uint16(v))\n\t}\n\treturn 2\n}\n\nfunc (v *wuint16) UnmarshalBinary(data []byte) error {\n\tif len(data) < 2 {\n\t\treturn ErrMissingData\n\t}\n\t*v = wuint16(binary.BigEndian.Uint16(data))\n\treturn nil\n}\n\nfunc (v wuint16) width() int { return 2 }\n\n// https://docs.oasis-open.org/mqtt/mqtt/v5.0/os/mqtt-v5.0-os.html#_Toc3901009\ntype wuint32 uint32\n\nfunc (v wuint32) fillProp(data []byte, i int, id Ident) int {\n\tif v == 0 {\n\t\treturn 0\n\t}\n\tn := i\n\ti += id.fill(data, i)\n\ti += v.fill(data, i)\n\treturn i - n\n}\n\nfunc (v wuint32) fill(data []byte, i int) int {\n\tif len(data) >= i+v.width() {\n\t\tbinary.BigEndian.PutUint32(data[i:], uint32(v))\n\t}\n\treturn v.width()\n}\n\nfunc (v *wuint32) UnmarshalBinary(data []byte) error {\n\tif len(data) < 4 {\n\t\treturn ErrMissingData\n\t}\n\t*v = wuint32(binary.BigEndian.Uint32(data))\n\treturn nil\n}\n\nfunc (v wuint32) width() int { return 4 }\n\n// only here to fulfill interface\nfunc (v Ident) fillProp(data []byte, i int, id Ident) int { return 0 }\n\nfunc (v Ident) fill(data []byte, i int) int {\n\tif len(data) >= i+1 {", "\t\"fmt\"\n\t\"io\"\n\t\"strings\"\n)\n\n// wireType defines the interface for types that can be send over the\n// wire\ntype wireType interface {\n\tencoding.BinaryUnmarshaler\n\n\t// fill unmarshals the data type into buf at position i. The\n\t// returned value is the width of the data marshaled.  fill should\n\t// work with a nil buf as a noop but return the width.  This\n\t// enables efficient calculation of partial lengths without\n\t// actually allocating a buf.\n\tfill(buf []byte, i int) int\n\n\t// fillProp fills the identified UserProp if not empty as this is\n\t// the case for most UserProp values.\n\tfillProp(buf []byte, i int, id Ident) int\n\n\t// returns the width of the wire data in bytes\n\twidth() int\n}\n\n// fits returns true if n bytes can be written to data starting at\n// position i.\nfunc fits(data []byte, i, n int) bool {\n\treturn len(data) >= i+n\n}\n\n// firstByte represents the first byte in a control packet.\ntype firstByte byte\n\n// String returns a readable string TYPEFLAGS, e.g. PUBLISH d1-r\nfunc (f firstByte) String() string {\n\tvar sb strings.Builder\n\tsb.WriteString(typeNames[byte(f)&0b1111_0000])\n\tsb.WriteString(\" \")\n\tflags := []byte(\"----\")\n\tif bits(f).Has(DUP) {\n\t\tflags[0] = 'd'\n\t}\n\tswitch {\n\tcase bits(f).Has(QoS3):\n\t\tflags[1] = '!' // malformed\n\t\tflags[2] = '!' // malformed\n\tcase bits(f).Has(QoS1):\n\t\tflags[2] = '1'\n\tcase bits(f).Has(QoS2):\n\t\tflags[1] = '2'\n\t}\n\tif bits(f).Has(RETAIN) {\n\t\tflags[3] = 'r'\n\t}\n\tsb.Write(flags)\n\treturn sb.String()\n}\n\n// https://docs.oasis-open.org/mqtt/mqtt/v5.0/os/mqtt-v5.0-os.html#_Toc3901013\ntype UserProp [2]string\n\nfunc (v UserProp) fillProp(data []byte, i int, id Ident) int {\n\tif len(v[0]) == 0 {\n\t\treturn 0\n\t}\n\tn := i\n\ti += id.fill(data, i)\n\ti += v.fill(data, i)\n\treturn i - n\n}\nfunc (v UserProp) fill(data []byte, i int) int {\n\ti += wstring(v[0]).fill(data, i)\n\t_ = wstring(v[1]).fill(data, i)\n\treturn v.width()\n}\n\nfunc (v *UserProp) UnmarshalBinary(data []byte) error {\n\tvar key wstring\n\tif err := key.UnmarshalBinary(data); err != nil {\n\t\treturn unmarshalErr(v, \"key\", err.(*Malformed))\n\t}\n\tv[0] = string(key)\n\n\ti := len(v[0]) + 2\n\tvar val wstring\n\tif err := val.UnmarshalBinary(data[i:]); err != nil {\n\t\treturn unmarshalErr(v, \"value\", err.(*Malformed))\n\t}\n\tv[1] = string(val)\n\treturn nil\n}\nfunc (v UserProp) String() string {\n\treturn fmt.Sprintf(\"%s:%s\", v[0], v[1])\n}\nfunc (v UserProp) width() int {\n\treturn wstring(v[0]).width() + wstring(v[1]).width()\n}\n\n// https://docs.oasis-open.org/mqtt/mqtt/v5.0/os/mqtt-v5.0-os.html#_Toc3901010\ntype wstring = bindata\n\n// https://docs.oasis-open.org/mqtt/mqtt/v5.0/os/mqtt-v5.0-os.html#_Toc3901012\ntype bindata []byte\n\nfunc (v bindata) fillProp(data []byte, i int, id Ident) int {\n\tif len(v) == 0 {\n\t\treturn 0\n\t}\n\tn := i\n\ti += id.fill(data, i)\n\ti += v.fill(data, i)\n\treturn i - n\n}\nfunc (v bindata) fill(data []byte, i int) int {\n\tif fits(data, i, v.width()) {\n\t\ti += wuint16(len(v)).fill(data, i)\n\t\tcopy(data[i:], []byte(v))\n\t}\n\treturn v.width()\n}\n\nfunc (v *bindata) UnmarshalBinary(data []byte) error {\n\tif len(data) < 2 {\n\t\treturn unmarshalErr(v, \"\", \"missing data\")\n\t}\n\tlength := int(data[0])<<8 | int(data[1])\n\tif len(data) < length+2 {\n\t\treturn unmarshalErr(v, \"\", \"missing data\")\n\t}\n\tif length == 0 {\n\t\treturn nil\n\t}\n\t*v = make([]byte, length)\n\tcopy(*v, data[2:length+2])\n\treturn nil\n}\n\nfunc (v bindata) width() int {\n\treturn 2 + len(v)\n}\n\ntype rawdata []byte\n\nfunc (v *rawdata) UnmarshalBinary(data []byte) error {\n\t*v = make([]byte, len(data))\n\tcopy(*v, data)\n\treturn nil\n}\nfunc (v rawdata) fill(data []byte, i int) int {\n\tif fits(data, i, v.width()) {\n\t\treturn copy(data[i:], []byte(v))\n\t}\n\treturn v.width()\n}\nfunc (v rawdata) width() int {\n\treturn len(v)\n}\n\n// fillProp is here to fullfill the wireType interface, though it\n// cannot be used as a property as the length is not written. fillProp\n// always panics.\nfunc (v rawdata) fillProp(data []byte, i int, id Ident) int {\n\tpanic(\"cannot use rawdata as property\")\n}\n\n// https://docs.oasis-open.org/mqtt/mqtt/v5.0/os/mqtt-v5.0-os.html#_Toc3901011\ntype vbint uint\n\nfunc (v vbint) fillProp(data []byte, i int, id Ident) int {\n\tif v == 0 {\n\t\treturn 0\n\t}\n\tn := i\n\ti += id.fill(data, i)\n\ti += v.fill(data, i)\n\treturn i - n\n}\n\nfunc (v vbint) fill(data []byte, i int) int {\n\tx := v\n\tn := i\n\tfor {\n\t\tencodedByte := byte(x % 128)\n\t\tx = x / 128\n\t\tif x > 0 {\n\t\t\tencodedByte = encodedByte | 128\n\t\t}\n\t\tif i < len(data) {\n\t\t\tdata[i] = encodedByte\n\t\t}\n\t\ti++\n\t\tif x == 0 {\n\t\t\tbreak\n\t\t}\n\t}\n\treturn i - n\n}\n\nfunc (v vbint) width() int {\n\treturn v.fill(_LEN, 0)\n}\n\nfunc (v *vbint) ReadFrom(r io.Reader) (int64, error) {\n\tvar multiplier uint = 1\n\tvar value uint\n\tdata := make([]byte, 1)\n\tvar i int64\n\tfor {\n\t\tif _, err := io.ReadFull(r, data); err != nil {\n\t\t\treturn i, err\n\t\t}\n\t\ti++\n\t\tencodedByte := data[0]\n\t\tvalue += uint(encodedByte) & uint(127) * multiplier\n\t\tif multiplier > 128*128*128 {\n\t\t\treturn i, unmarshalErr(v, \"\", \"size exceeded\")\n\t\t}\n\t\tif encodedByte&128 == 0 {\n\t\t\tbreak\n\t\t}\n\t\tmultiplier = multiplier * 128\n\t}\n\t*v = vbint(value)\n\treturn i, nil\n}\n\n// UnmarshalBinary data, returns nil or *Malformed error\nfunc (v *vbint) UnmarshalBinary(data []byte) error {\n\tif len(data) == 0 {\n\t\treturn unmarshalErr(v, \"\", \"missing data\")\n\t}\n\tvar multiplier uint = 1\n\tvar value uint\n\tfor _, encodedByte := range data {\n\t\tvalue += uint(encodedByte) & uint(127) * multiplier\n\t\tif multiplier > 128*128*128 {\n\t\t\treturn unmarshalErr(v, \"\", \"size exceeded\")\n\t\t}\n\t\tif encodedByte&128 == 0 {\n\t\t\t*v = vbint(value)\n\t\t\treturn nil\n\t\t}\n\t\tmultiplier = multiplier * 128\n\t}\n\treturn unmarshalErr(v, \"\", \"missing data\")\n}\n\n// wire types\ntype (\n\twuint8 = bits // byte\n)\n\ntype wbool bool\n\nfunc (v wbool) fillProp(data []byte, i int, id Ident) int {\n\tif !v {\n\t\treturn 0\n\t}\n\tn := i\n\ti += id.fill(data, i)\n\ti += v.fill(data, i)\n\treturn i - n\n}\nfunc (v wbool) fill(data []byte, i int) int {\n\tif fits(data, i, 1) {\n\t\tif v {\n\t\t\tdata[i] = 0x01\n\t\t} else {\n\t\t\tdata[i] = 0x00\n\t\t}\n\t}\n\treturn 1\n}\nfunc (v *wbool) UnmarshalBinary(data []byte) error {\n\tif len(data) < 1 {\n\t\treturn ErrMissingData\n\t}\n\tswitch data[0] {\n\tcase 0:\n\t\t*v = wbool(false)\n\tcase 1:\n\t\t*v = wbool(true)\n\tdefault:\n\t\treturn fmt.Errorf(\"malformed bool\")\n\t}\n\treturn nil\n}\nfunc (v wbool) width() int { return 1 }\n\n// https://docs.oasis-open.org/mqtt/mqtt/v5.0/os/mqtt-v5.0-os.html#_Toc3901007\ntype bits byte\n\nfunc (v bits) Has(b byte) bool { return byte(v)&b == b }\n\nfunc (v bits) fillProp(data []byte, i int, id Ident) int {\n\tif v == 0 {\n\t\treturn 0\n\t}\n\tn := i\n\ti += id.fill(data, i)\n\ti += v.fill(data, i)\n\treturn i - n\n}\n\nfunc (v bits) fill(data []byte, i int) int {\n\tif fits(data, i, 1) {\n\t\tdata[i] = byte(v)\n\t}\n\treturn 1\n}\n\n// fillOpt fills the bits if > 0\nfunc (v bits) fillOpt(data []byte, i int) int {\n\tif v == 0 {\n\t\treturn 0\n\t}\n\treturn v.fill(data, i)\n}\n\nfunc (v *bits) ReadFrom(r io.Reader) (int64, error) {\n\tdata := make([]byte, 1)\n\tif n, err := io.ReadFull(r, data); err != nil {\n\t\treturn int64(n), err\n\t}\n\treturn 1, v.UnmarshalBinary(data)\n}\nfunc (v *bits) UnmarshalBinary(data []byte) error {\n\tif len(data) < 1 {\n\t\treturn ErrMissingData\n\t}\n\t*v = bits(data[0])\n\treturn nil\n}\nfunc (v bits) width() int { return 1 }\nfunc (v *bits) toggle(flag byte, on bool) {\n\tif on {\n\t\t*v = *v | bits(flag)\n\t\treturn\n\t}\n\t*v = *v & bits(^flag)\n}\n\n// https://docs.oasis-open.org/mqtt/mqtt/v5.0/os/mqtt-v5.0-os.html#_Toc3901008\ntype wuint16 uint16\n\nfunc (v wuint16) fillProp(data []byte, i int, id Ident) int {\n\tif v == 0 {\n\t\treturn 0\n\t}\n\tn := i\n\ti += id.fill(data, i)\n\ti += v.fill(data, i)\n\treturn i - n\n}\n\nfunc (v wuint16) fill(data []byte, i int) int {\n\tif fits(data, i, 2) {\n\t\tdata[i] = byte(v >> 8)\n\t\tdata[i+1] = byte(v)\n\t}\n\treturn 2\n}\n\nfunc (v *wuint16) UnmarshalBinary(data []byte) error {\n\tif len(data) < 2 {\n\t\treturn ErrMissingData\n\t}\n\t*v = wuint16(data[1])<<8 | wuint16(data[0])\n\treturn nil\n}\n\nfunc (v wuint16) width() int { return 2 }\n\n// https://docs.oasis-open.org/mqtt/mqtt/v5.0/os/mqtt-v5.0-os.html#_Toc3901009\ntype wuint32 uint32\n\nfunc (v wuint32) fillProp(data []byte, i int, id Ident) int {\n\tif v == 0 {\n\t\treturn 0\n\t}\n\tn := i\n\ti += id.fill(data, i)\n\ti += v.fill(data, i)\n\treturn i - n\n}\n\nfunc (v wuint32) fill(data []byte, i int) int {\n\tif fits(data, i, v.width()) {\n\t\tdata[i] = byte(v >> 24)\n\t\tdata[i+1] = byte(v >> 16)\n\t\tdata[i+2] = byte(v >> 8)\n\t\tdata[i+3] = byte(v)\n\t}\n\treturn v.width()\n}\n\nfunc (v *wuint32) UnmarshalBinary(data []byte) error {\n\tif len(data) < 4 {\n\t\treturn ErrMissingData\n\t}\n\t*v = wuint32(data[0])<<24 | wuint32(data[1])<<16 |\n\t\twuint32(data[2])<<8 | wuint32(data[3])\n\treturn nil\n}\n\nfunc (v wuint32) width() int { return 4 }\n\n// only here to fulfill interface\nfunc (v Ident) fillProp(data []byte, i int, id Ident) int { return 0 }\n\nfunc (v Ident) fill(data []byte, i int) int {\n\tif fits(data, i, 1) {"}}},
 		{Name: "rf7-integers-by-shifts", Silent: true, Edits: []Edit{{"wiretypes.go", "\t\"encoding/binary\"\n\t\"fmt\"\n\t\"io\"\n\t\"strings\"\n)\n\n// wireType defines the interface for types that can be send over the\n// wire\ntype wireType interface {\n\tencoding.BinaryUnmarshaler\n\n\t// fill unmarshals the data type into buf at position i. The\n\t// returned value is the width of the data marshaled.  fill should\n\t// work with a nil buf as a noop but return the width.  This\n\t// enables efficient calculation of partial lengths without\n\t// actually allocating a buf.\n\tfill(buf []byte, i int) int\n\n\t// fillProp fills the identified UserProp if not empty as this is\n\t// the case for most UserProp values.\n\tfillProp(buf []byte, i int, id Ident) int\n\n\t// returns the width of the wire data in bytes\n\twidth() int\n}\n\n// firstByte represents the first byte in a control packet.\ntype firstByte byte\n\n// String returns a readable string TYPEFLAGS, e.g. PUBLISH d1-r\nfunc (f firstByte) String() string {\n\tvar sb strings.Builder\n\tsb.WriteString(typeNames[byte(f)&0b1111_0000])\n\tsb.WriteString(\" \")\n\tflags := []byte(\"----\")\n\tif bits(f).Has(DUP) {\n\t\tflags[0] = 'd'\n\t}\n\tswitch {\n\tcase bits(f).Has(QoS3):\n\t\tflags[1] = '!' // malformed\n\t\tflags[2] = '!' // malformed\n\tcase bits(f).Has(QoS1):\n\t\tflags[2] = '1'\n\tcase bits(f).Has(QoS2):\n\t\tflags[1] = '2'\n\t}\n\tif bits(f).Has(RETAIN) {\n\t\tflags[3] = 'r'\n\t}\n\tsb.Write(flags)\n\treturn sb.String()\n}\n\n// https://docs.oasis-open.org/mqtt/mqtt/v5.0/os/mqtt-v5.0-os.html#_Toc3901013\ntype UserProp [2]string\n\nfunc (v UserProp) fillProp(data []byte, i int, id Ident) int {\n\tif len(v[0]) == 0 {\n\t\treturn 0\n\t}\n\tn := i\n\ti += id.fill(data, i)\n\ti += v.fill(data, i)\n\treturn i - n\n}\nfunc (v UserProp) fill(data []byte, i int) int {\n\ti += wstring(v[0]).fill(data, i)\n\t_ = wstring(v[1]).fill(data, i)\n\treturn v.width()\n}\n\nfunc (v *UserProp) UnmarshalBinary(data []byte) error {\n\tvar key wstring\n\tif err := key.UnmarshalBinary(data); err != nil {\n\t\treturn unmarshalErr(v, \"key\", err.(*Malformed))\n\t}\n\tv[0] = string(key)\n\n\ti := len(v[0]) + 2\n\tvar val wstring\n\tif err := val.UnmarshalBinary(data[i:]); err != nil {\n\t\treturn unmarshalErr(v, \"value\", err.(*Malformed))\n\t}\n\tv[1] = string(val)\n\treturn nil\n}\nfunc (v UserProp) String() string {\n\treturn fmt.Sprintf(\"%s:%s\", v[0], v[1])\n}\nfunc (v UserProp) width() int {\n\treturn wstring(v[0]).width() + wstring(v[1]).width()\n}\n\n// https://docs.oasis-open.org/mqtt/mqtt/v5.0/os/mqtt-v5.0-os.html#_Toc3901010\ntype wstring = bindata\n\n// https://docs.oasis-open.org/mqtt/mqtt/v5.0/os/mqtt-v5.0-os.html#_Toc3901012\ntype bindata []byte\n\nfunc (v bindata) fillProp(data []byte, i int, id Ident) int {\n\tif len(v) == 0 {\n\t\treturn 0\n\t}\n\tn := i\n\ti += id.fill(data, i)\n\ti += v.fill(data, i)\n\treturn i - n\n}\nfunc (v bindata) fill(data []byte, i int) int {\n\tif len(data) >= i+v.width() {\n\t\ti += wuint16(len(v)).fill(data, i)\n\t\tcopy(data[i:], []byte(v))\n\t}\n\treturn v.width()\n}\n\nfunc (v *bindata) UnmarshalBinary(data []byte) error {\n\tif len(data) < 2 {\n\t\treturn unmarshalErr(v, \"\", \"missing data\")\n\t}\n\tlength := int(binary.BigEndian.Uint16(data))\n\tif len(data) < length+2 {\n\t\treturn unmarshalErr(v, \"\", \"missing data\")\n\t}\n\tif length == 0 {\n\t\treturn nil\n\t}\n\t*v = make([]byte, length)\n\tcopy(*v, data[2:length+2])\n\treturn nil\n}\n\nfunc (v bindata) width() int {\n\treturn 2 + len(v)\n}\n\ntype rawdata []byte\n\nfunc (v *rawdata) UnmarshalBinary(data []byte) error {\n\t*v = make([]byte, len(data))\n\tcopy(*v, data)\n\treturn nil\n}\nfunc (v rawdata) fill(data []byte, i int) int {\n\tif len(data) >= i+v.width() {\n\t\treturn copy(data[i:], []byte(v))\n\t}\n\treturn v.width()\n}\nfunc (v rawdata) width() int {\n\treturn len(v)\n}\n\n// fillProp is here to fullfill the wireType interface, though it\n// cannot be used as a property as the length is not written. fillProp\n// always panics.\nfunc (v rawdata) fillProp(data []byte, i int, id Ident) int {\n\tpanic(\"cannot use rawdata as property\")\n}\n\n// https://docs.oasis-open.org/mqtt/mqtt/v5.0/os/mqtt-v5.0-os.html#_Toc3901011\ntype vbint uint\n\nfunc (v vbint) fillProp(data []byte, i int, id Ident) int {\n\tif v == 0 {\n\t\treturn 0\n\t}\n\tn := i\n\ti += id.fill(data, i)\n\ti += v.fill(data, i)\n\treturn i - n\n}\n\nfunc (v vbint) fill(data []byte, i int) int {\n\tx := v\n\tn := i\n\tfor {\n\t\tencodedByte := byte(x % 128)\n\t\tx = x / 128\n\t\tif x > 0 {\n\t\t\tencodedByte = encodedByte | 128\n\t\t}\n\t\tif i < len(data) {\n\t\t\tdata[i] = encodedByte\n\t\t}\n\t\ti++\n\t\tif x == 0 {\n\t\t\tbreak\n\t\t}\n\t}\n\treturn i - n\n}\n\nfunc (v vbint) width() int {\n\treturn v.fill(_LEN, 0)\n}\n\nfunc (v *vbint) ReadFrom(r io.Reader) (int64, error) {\n\tvar multiplier uint = 1\n\tvar value uint\n\tdata := make([]byte, 1)\n\tvar i int64\n\tfor {\n\t\tif _, err := io.ReadFull(r, data); err != nil {\n\t\t\treturn i, err\n\t\t}\n\t\ti++\n\t\tencodedByte := data[0]\n\t\tvalue += uint(encodedByte) & uint(127) * multiplier\n\t\tif multiplier > 128*128*128 {\n\t\t\treturn i, unmarshalErr(v, \"\", \"size exceeded\")\n\t\t}\n\t\tif encodedByte&128 == 0 {\n\t\t\tbreak\n\t\t}\n\t\tmultiplier = multiplier * 128\n\t}\n\t*v = vbint(value)\n\treturn i, nil\n}\n\n// UnmarshalBinary data, returns nil or *Malformed error\nfunc (v *vbint) UnmarshalBinary(data []byte) error {\n\tif len(data) == 0 {\n\t\treturn unmarshalErr(v, \"\", \"missing data\")\n\t}\n\tvar multiplier uint = 1\n\tvar value uint\n\tfor _, encodedByte := range data {\n\t\tvalue += uint(encodedByte) & uint(127) * multiplier\n\t\tif multiplier > 128*128*128 {\n\t\t\treturn unmarshalErr(v, \"\", \"size exceeded\")\n\t\t}\n\t\tif encodedByte&128 == 0 {\n\t\t\t*v = vbint(value)\n\t\t\treturn nil\n\t\t}\n\t\tmultiplier = multiplier * 128\n\t}\n\treturn unmarshalErr(v, \"\", \"missing data\")\n}\n\n// wire types\ntype (\n\twuint8 = bits // byte\n)\n\ntype wbool bool\n\nfunc (v wbool) fillProp(data []byte, i int, id Ident) int {\n\tif !v {\n\t\treturn 0\n\t}\n\tn := i\n\ti += id.fill(data, i)\n\ti += v.fill(data, i)\n\treturn i - n\n}\nfunc (v wbool) fill(data []byte, i int) int {\n\tif len(data) >= i+1 {\n\t\tif v {\n\t\t\tdata[i] = 0x01\n\t\t} else {\n\t\t\tdata[i] = 0x00\n\t\t}\n\t}\n\treturn 1\n}\nfunc (v *wbool) UnmarshalBinary(data []byte) error {\n\tif len(data) < 1 {\n\t\treturn ErrMissingData\n\t}\n\tswitch data[0] {\n\tcase 0:\n\t\t*v = wbool(false)\n\tcase 1:\n\t\t*v = wbool(true)\n\tdefault:\n\t\treturn fmt.Errorf(\"malformed bool\")\n\t}\n\treturn nil\n}\nfunc (v wbool) width() int { return 1 }\n\n// https://docs.oasis-open.org/mqtt/mqtt/v5.0/os/mqtt-v5.0-os.html#_Toc3901007\ntype bits byte\n\nfunc (v bits) Has(b byte) bool { return byte(v)&b == b }\n\nfunc (v bits) fillProp(data []byte, i int, id Ident) int {\n\tif v == 0 {\n\t\treturn 0\n\t}\n\tn := i\n\ti += id.fill(data, i)\n\ti += v.fill(data, i)\n\treturn i - n\n}\n\nfunc (v bits) fill(data []byte, i int) int {\n\tif len(data) >= i+1 {\n\t\tdata[i] = byte(v)\n\t}\n\treturn 1\n}\n\n// fillOpt fills the bits if > 0\nfunc (v bits) fillOpt(data []byte, i int) int {\n\tif v == 0 {\n\t\treturn 0\n\t}\n\treturn v.fill(data, i)\n}\n\nfunc (v *bits) ReadFrom(r io.Reader) (int64, error) {\n\tdata := make([]byte, 1)\n\tif n, err := io.ReadFull(r, data); err != nil {\n\t\treturn int64(n), err\n\t}\n\treturn 1, v.UnmarshalBinary(data)\n}\nfunc (v *bits) UnmarshalBinary(data []byte) error {\n\tif len(data) < 1 {\n\t\treturn ErrMissingData\n\t}\n\t*v = bits(data[0])\n\treturn nil\n}\nfunc (v bits) width() int { return 1 }\nfunc (v *bits) toggle(flag byte, on bool) {\n\tif on {\n\t\t*v = *v | bits(flag)\n\t\treturn\n\t}\n\t*v = *v & bits(^flag)\n}\n\n// https://docs.oasis-open.org/mqtt/mqtt/v5.0/os/mqtt-v5.0-os.html#_Toc3901008\ntype wuint16 uint16\n\nfunc (v wuint16) fillProp(data []byte, i int, id Ident) int {\n\tif v == 0 {\n\t\treturn 0\n\t}\n\tn := i\n\ti += id.fill(data, i)\n\ti += v.fill(data, i)\n\treturn i - n\n}\n\nfunc (v wuint16) fill(data []byte, i int) int {\n\tif len(data) >= i+2 {\n\t\tbinary.BigEndian.PutUint16(data[i:], uint16(v))\n\t}\n\treturn 2\n}\n\nfunc (v *wuint16) UnmarshalBinary(data []byte) error {\n\tif len(data) < 2 {\n\t\treturn ErrMissingData\n\t}\n\t*v = wuint16(binary.BigEndian.Uint16(data))\n\treturn nil\n}\n\nfunc (v wuint16) width() int { return 2 }\n\n// https://docs.oasis-open.org/mqtt/mqtt/v5.0/os/mqtt-v5.0-os.html#_Toc3901009\ntype wuint32 uint32\n\nfunc (v wuint32) fillProp(data []byte, i int, id Ident) int {\n\tif v == 0 {\n\t\treturn 0\n\t}\n\tn := i\n\ti += id.fill(data, i)\n\ti += v.fill(data, i)\n\treturn i - n\n}\n\nfunc (v wuint32) fill(data []byte, i int) int {\n\tif len(data) >= i+v.width() {\n\t\tbinary.BigEndian.PutUint32(data[i:], uint32(v))\n\t}\n\treturn v.width()\n}\n\nfunc (v *wuint32) UnmarshalBinary(data []byte) error {\n\tif len(data) < 4 {\n\t\treturn ErrMissingData\n\t}\n\t*v = wuint32(binary.BigEndian.Uint32(data))\n\treturn nil\n}\n\nfunc (v wuint32) width() int { return 4 }\n\n// only here to fulfill interface\nfunc (v Ident) fillProp(data []byte, i int, id Ident) int { return 0 }\n\nfunc (v Ident) fill(data []byte, i int) int {\n\tif len(data) >= i+1 {", "\t\"fmt\"\n\t\"io\"\n\t\"strings\"\n)\n\n// wireType defines the interface for types that can be send over the\n// wire\ntype wireType interface {\n\tencoding.BinaryUnmarshaler\n\n\t// fill unmarshals the data type into buf at position i. The\n\t// returned value is the width of the data marshaled.  fill should\n\t// work with a nil buf as a noop but return the width.  This\n\t// enables efficient calculation of partial lengths without\n\t// actually allocating a buf.\n\tfill(buf []byte, i int) int\n\n\t// fillProp fills the identified UserProp if not empty as this is\n\t// the case for most UserProp values.\n\tfillProp(buf []byte, i int, id Ident) int\n\n\t// returns the width of the wire data in bytes\n\twidth() int\n}\n\n// fits returns true if n bytes can be written to data starting at\n// position i.\nfunc fits(data []byte, i, n int) bool {\n\treturn len(data) >= i+n\n}\n\n// firstByte represents the first byte in a control packet.\ntype firstByte byte\n\n// String returns a readable string TYPEFLAGS, e.g. PUBLISH d1-r\nfunc (f firstByte) String() string {\n\tvar sb strings.Builder\n\tsb.WriteString(typeNames[byte(f)&0b1111_0000])\n\tsb.WriteString(\" \")\n\tflags := []byte(\"----\")\n\tif bits(f).Has(DUP) {\n\t\tflags[0] = 'd'\n\t}\n\tswitch {\n\tcase bits(f).Has(QoS3):\n\t\tflags[1] = '!' // malformed\n\t\tflags[2] = '!' // malformed\n\tcase bits(f).Has(QoS1):\n\t\tflags[2] = '1'\n\tcase bits(f).Has(QoS2):\n\t\tflags[1] = '2'\n\t}\n\tif bits(f).Has(RETAIN) {\n\t\tflags[3] = 'r'\n\t}\n\tsb.Write(flags)\n\treturn sb.String()\n}\n\n// https://docs.oasis-open.org/mqtt/mqtt/v5.0/os/mqtt-v5.0-os.html#_Toc3901013\ntype UserProp [2]string\n\nfunc (v UserProp) fillProp(data []byte, i int, id Ident) int {\n\tif len(v[0]) == 0 {\n\t\treturn 0\n\t}\n\tn := i\n\ti += id.fill(data, i)\n\ti += v.fill(data, i)\n\treturn i - n\n}\nfunc (v UserProp) fill(data []byte, i int) int {\n\ti += wstring(v[0]).fill(data, i)\n\t_ = wstring(v[1]).fill(data, i)\n\treturn v.width()\n}\n\nfunc (v *UserProp) UnmarshalBinary(data []byte) error {\n\tvar key wstring\n\tif err := key.UnmarshalBinary(data); err != nil {\n\t\treturn unmarshalErr(v, \"key\", err.(*Malformed))\n\t}\n\tv[0] = string(key)\n\n\ti := len(v[0]) + 2\n\tvar val wstring\n\tif err := val.UnmarshalBinary(data[i:]); err != nil {\n\t\treturn unmarshalErr(v, \"value\", err.(*Malformed))\n\t}\n\tv[1] = string(val)\n\treturn nil\n}\nfunc (v UserProp) String() string {\n\treturn fmt.Sprintf(\"%s:%s\", v[0], v[1])\n}\nfunc (v UserProp) width() int {\n\treturn wstring(v[0]).width() + wstring(v[1]).width()\n}\n\n// https://docs.oasis-open.org/mqtt/mqtt/v5.0/os/mqtt-v5.0-os.html#_Toc3901010\ntype wstring = bindata\n\n// https://docs.oasis-open.org/mqtt/mqtt/v5.0/os/mqtt-v5.0-os.html#_Toc3901012\ntype bindata []byte\n\nfunc (v bindata) fillProp(data []byte, i int, id Ident) int {\n\tif len(v) == 0 {\n\t\treturn 0\n\t}\n\tn := i\n\ti += id.fill(data, i)\n\ti += v.fill(data, i)\n\treturn i - n\n}\nfunc (v bindata) fill(data []byte, i int) int {\n\tif fits(data, i, v.width()) {\n\t\ti += wuint16(len(v)).fill(data, i)\n\t\tcopy(data[i:], []byte(v))\n\t}\n\treturn v.width()\n}\n\nfunc (v *bindata) UnmarshalBinary(data []byte) error {\n\tif len(data) < 2 {\n\t\treturn unmarshalErr(v, \"\", \"missing data\")\n\t}\n\tlength := int(data[0])<<8 | int(data[1])\n\tif len(data) < length+2 {\n\t\treturn unmarshalErr(v, \"\", \"missing data\")\n\t}\n\tif length == 0 {\n\t\treturn nil\n\t}\n\t*v = make([]byte, length)\n\tcopy(*v, data[2:length+2])\n\treturn nil\n}\n\nfunc (v bindata) width() int {\n\treturn 2 + len(v)\n}\n\ntype rawdata []byte\n\nfunc (v *rawdata) UnmarshalBinary(data []byte) error {\n\t*v = make([]byte, len(data))\n\tcopy(*v, data)\n\treturn nil\n}\nfunc (v rawdata) fill(data []byte, i int) int {\n\tif fits(data, i, v.width()) {\n\t\treturn copy(data[i:], []byte(v))\n\t}\n\treturn v.width()\n}\nfunc (v rawdata) width() int {\n\treturn len(v)\n}\n\n// fillProp is here to fullfill the wireType interface, though it\n// cannot be used as a property as the length is not written. fillProp\n// always panics.\nfunc (v rawdata) fillProp(data []byte, i int, id Ident) int {\n\tpanic(\"cannot use rawdata as property\")\n}\n\n// https://docs.oasis-open.org/mqtt/mqtt/v5.0/os/mqtt-v5.0-os.html#_Toc3901011\ntype vbint uint\n\nfunc (v vbint) fillProp(data []byte, i int, id Ident) int {\n\tif v == 0 {\n\t\treturn 0\n\t}\n\tn := i\n\ti += id.fill(data, i)\n\ti += v.fill(data, i)\n\treturn i - n\n}\n\nfunc (v vbint) fill(data []byte, i int) int {\n\tx := v\n\tn := i\n\tfor {\n\t\tencodedByte := byte(x % 128)\n\t\tx = x / 128\n\t\tif x > 0 {\n\t\t\tencodedByte = encodedByte | 128\n\t\t}\n\t\tif i < len(data) {\n\t\t\tdata[i] = encodedByte\n\t\t}\n\t\ti++\n\t\tif x == 0 {\n\t\t\tbreak\n\t\t}\n\t}\n\treturn i - n\n}\n\nfunc (v vbint) width() int {\n\treturn v.fill(_LEN, 0)\n}\n\nfunc (v *vbint) ReadFrom(r io.Reader) (int64, error) {\n\tvar multiplier uint = 1\n\tvar value uint\n\tdata := make([]byte, 1)\n\tvar i int64\n\tfor {\n\t\tif _, err := io.ReadFull(r, data); err != nil {\n\t\t\treturn i, err\n\t\t}\n\t\ti++\n\t\tencodedByte := data[0]\n\t\tvalue += uint(encodedByte) & uint(127) * multiplier\n\t\tif multiplier > 128*128*128 {\n\t\t\treturn i, unmarshalErr(v, \"\", \"size exceeded\")\n\t\t}\n\t\tif encodedByte&128 == 0 {\n\t\t\tbreak\n\t\t}\n\t\tmultiplier = multiplier * 128\n\t}\n\t*v = vbint(value)\n\treturn i, nil\n}\n\n// UnmarshalBinary data, returns nil or *Malformed error\nfunc (v *vbint) UnmarshalBinary(data []byte) error {\n\tif len(data) == 0 {\n\t\treturn unmarshalErr(v, \"\", \"missing data\")\n\t}\n\tvar multiplier uint = 1\n\tvar value uint\n\tfor _, encodedByte := range data {\n\t\tvalue += uint(encodedByte) & uint(127) * multiplier\n\t\tif multiplier > 128*128*128 {\n\t\t\treturn unmarshalErr(v, \"\", \"size exceeded\")\n\t\t}\n\t\tif encodedByte&128 == 0 {\n\t\t\t*v = vbint(value)\n\t\t\treturn nil\n\t\t}\n\t\tmultiplier = multiplier * 128\n\t}\n\treturn unmarshalErr(v, \"\", \"missing data\")\n}\n\n// wire types\ntype (\n\twuint8 = bits // byte\n)\n\ntype wbool bool\n\nfunc (v wbool) fillProp(data []byte, i int, id Ident) int {\n\tif !v {\n\t\treturn 0\n\t}\n\tn := i\n\ti += id.fill(data, i)\n\ti += v.fill(data, i)\n\treturn i - n\n}\nfunc (v wbool) fill(data []byte, i int) int {\n\tif fits(data, i, 1) {\n\t\tif v {\n\t\t\tdata[i] = 0x01\n\t\t} else {\n\t\t\tdata[i] = 0x00\n\t\t}\n\t}\n\treturn 1\n}\nfunc (v *wbool) UnmarshalBinary(data []byte) error {\n\tif len(data) < 1 {\n\t\treturn ErrMissingData\n\t}\n\tswitch data[0] {\n\tcase 0:\n\t\t*v = wbool(false)\n\tcase 1:\n\t\t*v = wbool(true)\n\tdefault:\n\t\treturn fmt.Errorf(\"malformed bool\")\n\t}\n\treturn nil\n}\nfunc (v wbool) width() int { return 1 }\n\n// https://docs.oasis-open.org/mqtt/mqtt/v5.0/os/mqtt-v5.0-os.html#_Toc3901007\ntype bits byte\n\nfunc (v bits) Has(b byte) bool { return byte(v)&b == b }\n\nfunc (v bits) fillProp(data []byte, i int, id Ident) int {\n\tif v == 0 {\n\t\treturn 0\n\t}\n\tn := i\n\ti += id.fill(data, i)\n\ti += v.fill(data, i)\n\treturn i - n\n}\n\nfunc (v bits) fill(data []byte, i int) int {\n\tif fits(data, i, 1) {\n\t\tdata[i] = byte(v)\n\t}\n\treturn 1\n}\n\n// fillOpt fills the bits if > 0\nfunc (v bits) fillOpt(data []byte, i int) int {\n\tif v == 0 {\n\t\treturn 0\n\t}\n\treturn v.fill(data, i)\n}\n\nfunc (v *bits) ReadFrom(r io.Reader) (int64, error) {\n\tdata := make([]byte, 1)\n\tif n, err := io.ReadFull(r, data); err != nil {\n\t\treturn int64(n), err\n\t}\n\treturn 1, v.UnmarshalBinary(data)\n}\nfunc (v *bits) UnmarshalBinary(data []byte) error {\n\tif len(data) < 1 {\n\t\treturn ErrMissingData\n\t}\n\t*v = bits(data[0])\n\treturn nil\n}\nfunc (v bits) width() int { return 1 }\nfunc (v *bits) toggle(flag byte, on bool) {\n\tif on {\n\t\t*v = *v | bits(flag)\n\t\treturn\n\t}\n\t*v = *v & bits(^flag)\n}\n\n// https://docs.oasis-open.org/mqtt/mqtt/v5.0/os/mqtt-v5.0-os.html#_Toc3901008\ntype wuint16 uint16\n\nfunc (v wuint16) fillProp(data []byte, i int, id Ident) int {\n\tif v == 0 {\n\t\treturn 0\n\t}\n\tn := i\n\ti += id.fill(data, i)\n\ti += v.fill(data, i)\n\treturn i - n\n}\n\nfunc (v wuint16) fill(data []byte, i int) int {\n\tif fits(data, i, 2) {\n\t\tdata[i] = byte(v >> 8)\n\t\tdata[i+1] = byte(v)\n\t}\n\treturn 2\n}\n\nfunc (v *wuint16) UnmarshalBinary(data []byte) error {\n\tif len(data) < 2 {\n\t\treturn ErrMissingData\n\t}\n\t*v = wuint16(data[0])<<8 | wuint16(data[1])\n\treturn nil\n}\n\nfunc (v wuint16) width() int { return 2 }\n\n// https://docs.oasis-open.org/mqtt/mqtt/v5.0/os/mqtt-v5.0-os.html#_Toc3901009\ntype wuint32 uint32\n\nfunc (v wuint32) fillProp(data []byte, i int, id Ident) int {\n\tif v == 0 {\n\t\treturn 0\n\t}\n\tn := i\n\ti += id.fill(data, i)\n\ti += v.fill(data, i)\n\treturn i - n\n}\n\nfunc (v wuint32) fill(data []byte, i int) int {\n\tif fits(data, i, v.width()) {\n\t\tdata[i] = byte(v >> 24)\n\t\tdata[i+1] = byte(v >> 16)\n\t\tdata[i+2] = byte(v >> 8)\n\t\tdata[i+3] = byte(v)\n\t}\n\treturn v.width()\n}\n\nfunc (v *wuint32) UnmarshalBinary(data []byte) error {\n\tif len(data) < 4 {\n\t\treturn ErrMissingData\n\t}\n\t*v = wuint32(data[0])<<24 | wuint32(data[1])<<16 |\n\t\twuint32(data[2])<<8 | wuint32(data[3])\n\treturn nil\n}\n\nfunc (v wuint32) width() int { return 4 }\n\n// only here to fulfill interface\nfunc (v Ident) fillProp(data []byte, i int, id Ident) int { return 0 }\n\nfunc (v Ident) fill(data []byte, i int) int {\n\tif fits(data, i, 1) {"}}},
@@ -569,6 +570,11 @@ func (p *Prog) checkCodecPairing(c *Check) {
 				}
 			}
 			okE, badE := false, false
+			// `return bits(v).fill(data, i)`: the encoder of a type with the same underlying type, on the same value
+			if t := delegateEncoder(enc); t != enc {
+				enc = t
+				c.Fn(qname(enc))
+			}
 			for _, b := range enc.Blocks {
 				for _, ins := range b.Instrs {
 					if s, ok := ins.(*ssa.Store); ok {
@@ -1058,6 +1064,41 @@ func checkAdders(p *Prog, c *Check) {
 	}
 	c.Measured["adders_checked"] = nadd
 	c.Floor("exported adders", nadd, 5, "user properties, subscription identifiers, filters, reason codes")
+}
+
+// delegateEncoder: enc is nothing but `return U(v).fill(buf, off)` — the encoder of a type with the same underlying
+// type applied to the same value, buffer and offset.  Returns that encoder (enc itself otherwise).
+func delegateEncoder(enc *ssa.Function) *ssa.Function {
+	for depth := 0; depth < 3; depth++ {
+		if enc == nil || len(enc.Blocks) != 1 || len(enc.Params) != 3 {
+			return enc
+		}
+		ret, ok := terminator(enc.Blocks[0]).(*ssa.Return)
+		if !ok || len(ret.Results) != 1 {
+			return enc
+		}
+		call, ok := ret.Results[0].(*ssa.Call)
+		if !ok || len(call.Call.Args) != 3 || call.Call.Args[1] != ssa.Value(enc.Params[1]) || call.Call.Args[2] != ssa.Value(enc.Params[2]) {
+			return enc
+		}
+		t := call.Call.StaticCallee()
+		if t == nil || t.Blocks == nil || t.Name() != enc.Name() || len(t.Params) != 3 || !isWirePrimitive(t) {
+			return enc
+		}
+		ct, ok := call.Call.Args[0].(*ssa.ChangeType)
+		if !ok || ct.X != ssa.Value(enc.Params[0]) {
+			return enc
+		}
+		for _, ins := range enc.Blocks[0].Instrs {
+			switch ins.(type) {
+			case *ssa.ChangeType, *ssa.Call, *ssa.Return, *ssa.DebugRef:
+			default:
+				return enc
+			}
+		}
+		enc = t
+	}
+	return enc
 }
 
 // checkFillPropByEvaluation: for every fixed-width wire type, fillProp(buf, off, id) — evaluated on concrete values —
